@@ -197,11 +197,20 @@ def cases_for_tree(rng, entries, nconf: int, nstyles: int, kind: str, pkg_prob: 
     confs = rng.sample(CONFIGS, min(nconf, len(CONFIGS)))
     out = []
     files = {p for p, k in entries if k == "f"}
+    base_ents = list(entries)
+    if "o" not in files and not any(p == "o" or p.startswith("o/") for p, _ in base_ents):
+        base_ents.append(("o", "d"))      # the "outside" working directory always exists (keeps consecutive trees equal)
+
+    def needs_dir(conf):
+        cwd = conf[2]
+        return bool(cwd) and not any(p == cwd or p.startswith(cwd + "/") for p, _ in base_ents)
+
+    confs.sort(key=needs_dir)
     for ns, epb, cwd, mp in confs:
         if any(x in files for x in [cwd] + mp):
             continue                      # the name is taken by a plain file in this tree
-        ents = list(entries)
-        if cwd and not any(p == cwd or p.startswith(cwd + "/") for p, _ in ents):
+        ents = list(base_ents)
+        if needs_dir((ns, epb, cwd, mp)):
             ents.append((cwd, "d"))       # the working directory exists (possibly empty)
         for style, args in arg_styles(rng, entries, nstyles):
             pkg = None
